@@ -59,7 +59,8 @@ IntRes(b, i) == IF b = 0 /\ (i > Bound \/ i < -Bound) THEN XUnk
                 ELSE [t |-> "int", b |-> b, i |-> i]
 
 IAdd(x, y) ==
-  IF x.b = 0 /\ y.b = 0 THEN IntRes(0, x.i + y.i)
+  IF x.b \in {2, 3, 4} \/ y.b \in {2, 3, 4} THEN XUnk
+  ELSE IF x.b = 0 /\ y.b = 0 THEN IntRes(0, x.i + y.i)
   ELSE IF x.b # 0 /\ y.b = 0 THEN IntRes(x.b, x.i + y.i)
   ELSE IF x.b = 0 /\ y.b # 0 THEN IntRes(y.b, x.i + y.i)
   ELSE IF x.b = y.b THEN XOvf
@@ -194,6 +195,7 @@ Compare(f, a, b) ==
 
 ArithV(f, a, b) ==
   IF IsNull(a) \/ IsNull(b) THEN Val(Null)
+  ELSE IF a.t = "int" /\ b.t = "int" /\ (a.b \in {2, 3, 4} \/ b.b \in {2, 3, 4}) THEN Unk       \* operands near 2^32 / 2^53: arithmetic not modelled
   ELSE IF a.t = "int" /\ b.t = "int" THEN
          LET r == CASE f = "+" -> IAdd(a, b) [] f = "-" -> ISub(a, b) [] f = "*" -> IMul(a, b) [] f = "/" -> IDiv(a, b)
          IN IF r.t = "unk" THEN Unk
@@ -239,6 +241,7 @@ Truth(v) == v.t = "bool" /\ v.v          \* Value::bool(): anything that is not 
 Call1(f, a) ==
   CASE f = "abs" ->
          IF IsNull(a) THEN Val(Null)
+         ELSE IF a.t = "int" /\ a.b \in {2, 3, 4} THEN Val(a)
          ELSE IF a.t = "int" THEN (IF a.b = 0 THEN Val(IntV(IF a.i < 0 THEN -a.i ELSE a.i))
                                    ELSE IF a.b = 1 THEN Val(a)
                                    ELSE LET r == INeg(a) IN IF r.t = "ovf" THEN (IF "UncheckedArith" \in Dev THEN Panic ELSE Err) ELSE Val(r))
@@ -337,13 +340,14 @@ Eval(e, env) ==
     [] e.op = "neg" ->
          LET a == Eval(e.a, env) IN IF a.k # "val" THEN a ELSE
          IF IsNull(a.v) THEN Val(Null)
+         ELSE IF a.v.t = "int" /\ a.v.b \in {2, 3, 4} THEN Unk
          ELSE IF a.v.t = "int" THEN (LET r == INeg(a.v) IN IF r.t = "unk" THEN Unk
                                       ELSE IF r.t = "ovf" THEN (IF "UncheckedArith" \in Dev THEN Panic ELSE Err) ELSE Val(r))
          ELSE IF a.v.t = "real" THEN (IF a.v.c = "fin" /\ a.v.n # 0 THEN Val(RealV(-a.v.n, a.v.d))
                                        ELSE IF a.v.c = "fin" THEN Val(NZero)
                                        ELSE IF a.v.c = "nzero" THEN Val(RealV(0, 1))
                                        ELSE IF a.v.c = "pinf" THEN Val(NInf) ELSE IF a.v.c = "ninf" THEN Val(PInf)
-                                       ELSE IF a.v.c = "nan" THEN Val(NaN) ELSE IF a.v.c = "p63" THEN Val(N63) ELSE Val(P63))
+                                       ELSE IF a.v.c = "nan" THEN Val(NaN) ELSE IF a.v.c = "p63" THEN Val(N63) ELSE IF a.v.c = "n63" THEN Val(P63) ELSE Unk)
          ELSE Err
     [] e.op = "not" ->
          LET a == Eval(e.a, env) IN IF a.k # "val" THEN a ELSE
